@@ -849,3 +849,58 @@ fn vp_native_builder_features_roundtrip() {
     assert_eq!(header(&r, "content-length"), vec![body.len().to_string().as_bytes()]);
     println!("VP-NATIVE builder_features_roundtrip cases={}", cases);
 }
+
+// ---------------------------------------------------------------- generated requests (fixed pseudo-random sequences)
+struct Rng(u64);
+impl Rng {
+    fn next(&mut self) -> u64 { let mut x = self.0; x ^= x >> 12; x ^= x << 25; x ^= x >> 27; self.0 = x; x.wrapping_mul(0x2545F4914F6CDD1D) }
+    fn below(&mut self, n: usize) -> usize { (self.next() % n as u64) as usize }
+    fn pick<'a, T>(&mut self, xs: &'a [T]) -> &'a T { &xs[self.below(xs.len())] }
+}
+/// C07: 3000 requests built from random combinations of method, URL shape, query parameters, caller headers (repeated names,
+/// non-UTF-8 bytes), an authentication helper and a body kind; the bytes written decode back to what was built
+#[test]
+fn vp_native_generated_requests_roundtrip() {
+    use http::Method;
+    let methods = [Method::GET, Method::POST, Method::PUT, Method::DELETE, Method::PATCH, Method::OPTIONS];
+    let bases = ["http://h.test", "http://h.test/", "http://h.test/a/b%20c", "http://user:pw@h.test:8080/p?pre=0", "http://[::1]:81/v6?x", "http://H.Test/Case?a=1&a=2#frag", "https://h.test/s?"];
+    let keys = ["k", "a b", "é", "x&y", "", "q?#"]; let vals = ["v", "1 2", "&=+%", "\u{1F600}", "", "/path/like"];
+    let mut cases = 0u64;
+    for seed in [0x9E3779B97F4A7C15u64, 0xD1B54A32D192ED03, 0x2545F4914F6CDD1D] { let mut r = Rng(seed); for i in 0..1000 {
+        let method = r.pick(&methods).clone();
+        let base = *r.pick(&bases);
+        let mut b = crate::RequestBuilder::new(method.clone(), base);
+        let mut want_pairs: Vec<(Vec<u8>, Vec<u8>)> = { let u = Url::parse(base).unwrap(); query_pairs(&format!("?{}", u.query().unwrap_or(""))) };
+        for _ in 0..r.below(4) { let (k, v) = (*r.pick(&keys), *r.pick(&vals)); b = b.param(k, v); want_pairs.push((k.as_bytes().to_vec(), v.as_bytes().to_vec())); }
+        let mut want_headers: Vec<(&str, Vec<u8>)> = Vec::new();
+        for _ in 0..r.below(4) {
+            let n = *r.pick(&["X-One", "x-one", "X-Two", "Accept-Language"]); let v: &[u8] = *r.pick(&[&b"v"[..], b"a, b", b"caf\xe9", b"", b"x y\tz"]);
+            if r.below(2) == 0 { b = b.header(n, v); want_headers.retain(|(k, _)| !k.eq_ignore_ascii_case(n)); } else { b = b.header_append(n, v); }
+            want_headers.push((n, v.to_vec()));
+        }
+        let auth = r.below(3);
+        let want_auth: Option<String> = match auth { 1 => { b = b.basic_auth("us er", Some("p:w")); Some(format!("Basic {}", b64(b"us er:p:w"))) } 2 => { b = b.bearer_auth("tok-123"); Some("Bearer tok-123".into()) } _ => None };
+        let size = *r.pick(&[0usize, 1, 100, 8191, 8192, 8193, 20000]);
+        let payload = piece(size, (i % 200) as u8);
+        let kind = r.below(5);
+        let rq = match kind {
+            0 => wire_of(b), 1 => wire_of(b.bytes(payload.clone())), 2 => wire_of(b.text(String::from_utf8_lossy(&payload).into_owned())),
+            3 => wire_of(b.body(Writes { pieces: vec![payload[..size / 2].to_vec(), vec![], payload[size / 2..].to_vec()], chunked: true })),
+            _ => wire_of(b.body(Writes { pieces: vec![payload.clone()], chunked: false })),
+        };
+        cases += 1;
+        let ctx = format!("case {} of seed {:x}: {} {} body kind {} of {} bytes", i, seed, method, base, kind, size);
+        assert_eq!(rq.method, method.as_str(), "{}", ctx);
+        assert!(!rq.target.contains('#') && !rq.target.contains('@') && rq.target.starts_with('/'), "target {:?} ({})", rq.target, ctx);
+        assert_eq!(query_pairs(&rq.target), want_pairs, "query pairs of {:?} ({})", rq.target, ctx);
+        let want_body: Vec<u8> = match kind { 0 => vec![], 2 => String::from_utf8_lossy(&payload).into_owned().into_bytes(), _ => payload.clone() };
+        assert!(rq.body == want_body, "body: {} bytes decoded, {} written ({})", rq.body.len(), want_body.len(), ctx);
+        for name in ["x-one", "x-two", "accept-language"] {
+            let want: Vec<&[u8]> = want_headers.iter().filter(|(k, _)| k.eq_ignore_ascii_case(name)).map(|(_, v)| &v[..]).collect();
+            assert!(header(&rq, name) == want, "header {}: got {:?} want {:?} ({})", name, header(&rq, name), want, ctx);
+        }
+        match &want_auth { Some(a) => assert_eq!(header(&rq, "authorization"), vec![a.as_bytes()], "{}", ctx), None => assert!(header(&rq, "authorization").is_empty(), "{}", ctx) }
+        assert_eq!(header(&rq, "host").len(), 1, "{}", ctx);
+    } }
+    println!("VP-NATIVE generated_requests_roundtrip cases={}", cases);
+}
